@@ -73,6 +73,13 @@ for line in sys.stdin:
 '''
 
 
+STATS = {}
+
+
+def _stat(k):
+    STATS[k] = STATS.get(k, 0) + 1
+
+
 class Hang(Exception):
     pass
 
@@ -491,6 +498,7 @@ def run_sequence(worker, seq, log=None):
             if not isinstance(rc, int):
                 return (tag + '/crash', f'`{show}` escaped main(): {rc}', i)
             enospc = rc != 0 and 'No space left' in r['err']
+            _stat('sh-out-of-space' if enospc else 'sh-expected-failure' if not ok else 'sh-success')
             if ok and rc != 0 and not enospc:
                 return (tag + '/unexpected-failure', f'`{show}` failed ({r["err"].strip()[-160:]!r}) but should succeed', i)
             if not ok and rc == 0:
